@@ -58,6 +58,9 @@ CHECKS = {
 
  'C18': ('Q2 placement/sign of symbolic duals through the real extract_output (rows identified by their support); Level-0 supergradient certificate: z3 over all injections d and all re-optimised points x\' on the real problem with the real solvers\' reported prices', '6 C18',
          'Placement: for every catalogue shape incl. split problems with unequal intervals, nodes that become active later and structured assets, the price reported at (node, step) is minus the dual of exactly the nodal row made of that pair\'s dispatch, for all dual values. Meaning: for seeded concrete LP portfolios and every installed LP solver, z3 shows that NO injection of any size or sign and NO feasible re-optimised point beats V + price*d (all d, not sampled d). The portfolio/price instances are finite (a real solver must produce the duals).'),
+
+ 'C11': ('Q2 term-by-term identity of lifted problems before/after the real (de)serialisation hooks executed through a tree-walking json stand-in with symbolic numeric leaves; tree equality of re-saved JSON; grid points/zone', '6 C11',
+         'For 16 asset classes/parameter forms x {fresh, after set-up} x grids and portfolios carrying naive/CET/ambiguous-hour grids: for ALL numeric contents the loaded object yields the identical problem for symbolic prices on two grids, re-saving reproduces the JSON tree, grid points and time zone survive. Classes, dates and forms are enumerated (structure); one open known finding (LinkedAsset).'),
 }
 NA = {}
 props = [json.loads(l) for l in open(os.path.join(ROOT, 'properties.jsonl'))]
